@@ -160,6 +160,17 @@ macro_rules! float_case_impl {
             if let (Some(a), Some(b)) = (&eager_rows, &lazy_rows) {
                 same(c, "eager vs lazy categorical (same-named constructor)", &input, a, b);
             }
+            // cross-coding between the two representations, independent of the lazy model's self-consistency:
+            // what the eager model encodes, the lazy model must decode, and vice versa
+            if let (Some(er), Some(lm)) = (&eager_rows, &lazy) {
+                let qs = quantiles(er, $P);
+                if query(c, "lazy categorical decodes what the eager model (same-named constructor) encodes", class_fast, &input, "C05", || check_dec::<_, usize, $P>(lm, er, &qs)).is_some() {
+                    c.sink.count("representation_comparisons", 1);
+                }
+                if let Some(r) = query(c, "lazy categorical encoder vs eager model (same-named constructor)", class_fast, &input, "C05", || enc_rows::<_, usize, $P>(lm, &support)) {
+                    same(c, "eager vs lazy categorical (same-named constructor, encoder side)", &input, er, &r);
+                }
+            }
             // ---- representations of the eager model
             if let (Some(m), Some(rows)) = (&eager, &eager_rows) {
                 let qs = quantiles(rows, $P);
